@@ -516,6 +516,8 @@ class Mini:
             n = n[2]
         if mac in ("panic", "unreachable", "unimplemented", "todo"):
             raise Panic(f"{mac}!")
+        if mac in ("format", "format_args"):
+            return "<formatted text>"  # message texts are not part of any decided clause
         t = H.tag(n)
         if t == "lit":
             if n[1] == "int":
@@ -1160,6 +1162,8 @@ class Mini:
                 if self.truth(self.apply(args[0], [x])):
                     return ("Some", x)
             return "None"
+        if p == "std::iter::traits::iterator::Iterator::collect":
+            return list(self.iterate(recv))
         if p == "std::iter::traits::iterator::Iterator::count":
             return len(self.iterate(recv))
         if p.startswith("std::slice::<impl [T]>::") and nm in ("sort_unstable", "sort") and isinstance(recv, list):
